@@ -397,6 +397,19 @@ class G:
             if h == "name":
                 return "(name(r) %s %s)" % (self.pick(["==", "!="]), self.pick(["'sel/rec'", "'other/type'", "'x'"]))
             return "(%s in names(r))" % self.pick(["'sel/rec'", "'other/type'", "'x'"])
+        if k == "type" and self.i(0, 5) == 0:
+            # the matcher on the LEFT of a membership test: `Type.x in L` is "some field of that type is in L", and
+            # `not in` is its negation - that is what Python makes of it
+            self.use("Type")
+            self.use("Type:left-of-membership")
+            op = self.pick(["in", "not in"])
+            if self.i(0, 1):
+                items = [repr(w) for w in WORDS]
+                k0 = self.i(0, len(items) - 1)
+                items = (items[k0:] + items[:k0])[: self.i(1, 3)]
+                lb, rb = self.pick([("[", "]"), ("(", ",)")])
+                return "(Type.string %s %s%s%s)" % (op, lb, ", ".join(items), rb)
+            return "(Type.varint %s [%s])" % (op, ", ".join(str(self.i(0, 4)) for _ in range(self.i(1, 3))))
         if k == "type":
             self.use("Type")
             t = self.pick(["string", "varint", "uri.filename", "uri.hostname", "stringlist", "filesize", "float",
